@@ -19,6 +19,14 @@ pub fn complete(
     debug!("complete: args={args:?}, arg_index={arg_index:?}, current_dir={current_dir:?}");
     cmd.build();
 
+    if args.len() <= arg_index {
+        // Nothing under the cursor
+        return Err(std::io::Error::new(
+            std::io::ErrorKind::Other,
+            "no completion generated",
+        ));
+    }
+
     let raw_args = clap_lex::RawArgs::new(args);
     let mut cursor = raw_args.cursor();
     let mut target_cursor = raw_args.cursor();
@@ -86,7 +94,7 @@ pub fn complete(
                     };
                 } else if pos_allows_hyphen(current_cmd, pos_index) {
                     (next_state, pos_index) =
-                        parse_positional(current_cmd, pos_index, is_escaped, current_state);
+                        parse_hyphen_value(current_cmd, pos_index, is_escaped, current_state);
                 }
             }
         } else if let Some(short) = arg.to_short() {
@@ -97,7 +105,7 @@ pub fn complete(
                 }
             } else if pos_allows_hyphen(current_cmd, pos_index) {
                 (next_state, pos_index) =
-                    parse_positional(current_cmd, pos_index, is_escaped, current_state);
+                    parse_hyphen_value(current_cmd, pos_index, is_escaped, current_state);
             }
         } else {
             match current_state {
@@ -665,6 +673,20 @@ fn parse_positional<'a>(
             "This branch won't be hit,
             because ParseState::Opt should not be seen as a positional argument and passed to this function."
         ),
+    }
+}
+
+/// An unknown flag while the positional allows hyphen values: like the parser, hand it to an
+/// option that is still waiting for values, otherwise to the positional.
+fn parse_hyphen_value<'a>(
+    cmd: &clap::Command,
+    pos_index: usize,
+    is_escaped: bool,
+    state: ParseState<'a>,
+) -> (ParseState<'a>, usize) {
+    match state {
+        ParseState::Opt((opt, count)) => (parse_opt_value(opt, count), pos_index),
+        state => parse_positional(cmd, pos_index, is_escaped, state),
     }
 }
 
